@@ -620,3 +620,138 @@ def std_args(argv):
     ap.add_argument("--seed", type=int, default=int(os.environ.get("VERIF_SEED", "20260921")))
     ap.add_argument("--replay")
     return ap.parse_args(argv)
+
+
+def conc_programs(rng, count):
+    """ConcurrentImmix with natural GCs: concurrent marking runs while the mutator keeps writing (SATB barrier
+    pushes into the open Concurrent bucket)."""
+    progs = []
+    for i in range(count):
+        w = [1, 2, 4, 1][i % 4]
+        L = []
+        p = L.append
+        nid = [0]
+        p("bind 1")
+        def alloc(m, nf, payload, slot):
+            nid[0] += 1
+            p(f"alloc {m} {nid[0]} {nf} {payload} 8 0 Default {slot}")
+            return nid[0]
+        keep = []
+        for k in range(40):
+            x = alloc(0, 4, 64, 10 + k % 40)
+            keep.append(x)
+        for rounds in range(6):
+            for k in range(700):
+                y = alloc(k % 2, 2, rng.choice([2000, 6000, 12000]), 60)
+                if k % 7 == 0:
+                    src = rng.choice(keep)
+                    p(f"write 0 {src} {rng.randrange(4)} {y}")
+            p("sleep 5")
+            p("events")
+        progs.append(Prog(f"conc{i}-w{w}", "ConcurrentImmix", w, L, yseed=rng.randrange(1, 1 << 30) if i % 2 else 0,
+                          heap=24 << 20, tags={"conc"}))
+    return progs
+
+
+def run_check(pid, modules, theorems, keys, build_programs, argv, meta, want_fork=False):
+    """Common main of C14/C15/C16/C11: Lean obligations, real GCs, monitor + oracles, evidence."""
+    a = std_args(argv)
+    t0 = time.time()
+    violations = []
+    if a.replay:
+        return replay(pid, a.replay, keys)
+    # translator first: the generated table is part of the Lean build
+    stages, err = regenerate_stages()
+    if stages is None:
+        violations.append(Violation("harness-build-failed", "hx_consts no longer builds / runs: " + err[-1200:],
+                                    found_input=False, broken="translator (stage table)"))
+        return E.finish(pid, a.tier, a.seed, t0, {"obligations": len(theorems), "discharged": 0}, {}, violations)
+    lean = E.lean_check(modules, theorems, fresh=(a.tier == "thorough"))
+    lean["targets"] = modules
+    rng = random.Random(a.seed * 7919 + sum(map(ord, pid)))
+    progs = build_programs(rng, a.tier)
+    results, stages2, builds = run_all(progs)
+    if results is None:
+        violations.append(Violation("harness-build-failed", "hx_gc no longer builds: " + str(stages2)[-1200:],
+                                    found_input=False, broken="harness build"))
+        return E.finish(pid, a.tier, a.seed, t0, lean, {}, violations)
+    n_ok, total_events, gcs, distinct = 0, 0, 0, set()
+    dist = defaultdict(int)
+    agg = defaultdict(int)
+    samples = []
+    other = defaultdict(int)
+    for r in results:
+        p = r.prog
+        dist["plan:" + p.plan] += 1
+        dist[f"workers:{p.workers}"] += 1
+        dist["yield:" + ("armed" if p.yseed else "off")] += 1
+        for t in p.tags:
+            dist["tag:" + t] += 1
+        total_events += len(r.toks)
+        case = {"name": p.name, "program": p.text()}
+        found = []
+        if r.verdict.startswith("viol"):
+            parts = r.verdict.split(" ", 2)
+            found.append((parts[1], parts[2] if len(parts) > 2 else ""))
+        found += r.oracle
+        mine = [(k, w) for k, w in found if k in keys]
+        for k, w in found:
+            if k not in keys:
+                other[k] += 1
+        for k, w in mine:
+            violations.append(Violation(k, f"{w} [program {p.name}: plan {p.plan}, {p.workers} workers, yield seed {p.yseed}]",
+                                        case, r.lines[-3:] + [r.verdict], None, True))
+        if r.stats:
+            n_ok += 1
+            gcs += r.stats.get("gcs", 0)
+            for k2, v in r.stats.items():
+                agg[k2] += v
+            distinct.add((p.plan, p.workers, r.stats.get("parks"), r.stats.get("lastparked"), r.stats.get("steals"),
+                          r.stats.get("packets")))
+            if len(samples) < 3:
+                samples.append({"program": p.name, "head": p.text()[:8], "events": len(r.toks), "monitor": r.verdict[:300]})
+    if not lean["ok"]:
+        names = [f.get("theorem") or f.get("module") or f["kind"] for f in lean["failures"]]
+        if not any(v.found_input for v in violations):
+            violations.append(Violation("proof-broken", f"Lean obligations no longer check: {lean['failures']}",
+                                        None, None, None, False, broken=f"theorems/modules: {names}"))
+    corr = {
+        "evaluations": len(results), "distinct_nontrivial": len(distinct),
+        "rule": "one evaluation = one hx_gc process (a generated mutator program with 2-6 GCs on a real MMTk instance) whose "
+                "complete event log is replayed by the Lean monitor and judged by the Python oracles; non-trivial = the "
+                "monitor accepted at least one complete GC; distinct = distinct (plan, workers, parks, last-parked rounds, "
+                "steals, packets) tuples",
+        "samples": samples, "traces_validated_against_impl": n_ok, "gcs_replayed": gcs, "events_replayed": total_events,
+        "monitor_totals": dict(agg), "distribution": dict(dist), "harness_build_s": builds, "lean_s": lean.get("lean_s"),
+        "failures_owned_by_other_sched_properties": dict(other),
+    }
+    return E.finish(pid, a.tier, a.seed, t0, lean, corr, violations, level="proof of the model; partial w.r.t. the code",
+                    assumptions=meta.get("assumptions", [
+                        "event-log conformance is sampled (programs x schedules), not exhaustive",
+                        "Condvar / crossbeam deque semantics as modelled (notify_one wakes one current waiter or nobody; "
+                        "spurious wake-ups allowed; steal_batch_and_pop moves packets atomically)",
+                        "debug build (debug assertions are guards of the model)"]))
+
+
+def replay(pid, path, keys):
+    data = json.load(open(path))
+    case = data["case"]
+    lines = case["program"] if isinstance(case, dict) else case
+    plan = next(l.split()[2] for l in lines if l.startswith("cfg plan"))
+    workers = int(next(l.split()[2] for l in lines if l.startswith("cfg workers")))
+    exe, err, _ = E.cargo_build("hx_gc", fs="fs_main", extra_features=("unified_ref",) if plan == "Compressor" else ())
+    stages, err = regenerate_stages()
+    E.run(["lake", "build", "mmtk_model"], cwd=E.LEAN_DIR)
+    bad = 0
+    for attempt in range(5):
+        p = subprocess.run([exe], input="\n".join(lines) + "\n", capture_output=True, text=True, timeout=300)
+        out = p.stdout.splitlines()
+        evs = parse_events(out)
+        verdict, st = lean_replay(E.model_exe(), annotate(evs, workers), workers, plan == "ConcurrentImmix")
+        cons = constraints_of(out)
+        orc = oracle(evs, p.returncode, out, stages, cons.get("fwdafterliveness") in ("1", "true"))
+        print(f"run {attempt}: rc={p.returncode} monitor: {verdict[:300]} oracle: {orc}")
+        if verdict.startswith("viol") or orc:
+            bad += 1
+    print("REPLAY:", "violation reproduced" if bad else "no longer reproduces (5 runs; schedules vary)")
+    return 1 if bad else 0
